@@ -20,6 +20,7 @@ import traceback
 
 VERIF = os.path.dirname(os.path.dirname(os.path.abspath(__file__)))
 REPO = os.environ.get("VERIF_REPO", "/repo")
+OUT = os.environ.get("VERIF_OUT", VERIF)  # where evidence/ and replay/ are written (scratch runs against a mutated copy set it)
 PY = "/venv/bin/python"
 
 
@@ -180,7 +181,7 @@ class Run:
                 matched.setdefault(e["id"], [e, 0])[1] += 1
         # replay files for unknown violations (deduplicated by classification)
         replay_paths = []
-        rdir = os.path.join(VERIF, "replay", self.pid)
+        rdir = os.path.join(OUT, "replay", self.pid)
         seen_kf = {}
         for kf, wit in unknown:
             k = json.dumps(kf, sort_keys=True, default=str)
@@ -236,8 +237,8 @@ class Run:
             "wall_s": round(time.time() - self.t0, 2),
             "violations": len(unknown),
         }
-        os.makedirs(os.path.join(VERIF, "evidence"), exist_ok=True)
-        evpath = os.path.join(VERIF, "evidence", f"{self.pid}.json")
+        os.makedirs(os.path.join(OUT, "evidence"), exist_ok=True)
+        evpath = os.path.join(OUT, "evidence", f"{self.pid}.json")
         tmp = evpath + ".tmp"
         with open(tmp, "w") as f:
             json.dump(ev, f, indent=1, default=str)
